@@ -26,6 +26,7 @@ import (
 func boot() {
 	hxnode.BootServices("dev")
 	core.VerifC06Init()
+	initReward()
 	common.SetBlockHeight(100)
 }
 
@@ -139,11 +140,13 @@ func runSessions(g *Gen, sessions int, stats map[string]interface{}) {
 		g.setup(withContracts)
 		nb := 6 + g.r.Intn(10)
 		for b := 0; b < nb; b++ {
-			k := g.r.Pick(1, 1, 1, 2, 3, 4)
+			k := g.r.Pick(1, 1, 2, 2, 3, 4)
 			for i := 0; i < k; i++ {
 				switch {
 				case g.r.Chance(1, 7):
 					g.lockTx()
+				case g.r.Chance(1, 12):
+					g.nodeTx()
 				case withContracts && g.r.Chance(3, 5):
 					g.contractTx(i == 0)
 				default:
@@ -153,6 +156,9 @@ func runSessions(g *Gen, sessions int, stats map[string]interface{}) {
 			res := w.Exec()
 			if g.r.Chance(1, 6) {
 				g.refund()
+			}
+			if g.r.Chance(1, 5) {
+				g.after()
 			}
 			blocks++
 			txs += k
@@ -235,7 +241,7 @@ func replayLines(w *World, f *os.File, verbose bool) {
 		if line == "exec" {
 			res := w.Exec()
 			if verbose {
-				fmt.Printf("REPLAY exec statuses=%s total_before=%s total_after=%s panic=%q\n", res.Statuses, res.Before, res.After, res.Panic)
+				fmt.Printf("REPLAY exec statuses=%s total_before=%s total_after=%s panic=%q msgs=%q\n", res.Statuses, res.Before, res.After, res.Panic, res.Msgs)
 			}
 			continue
 		}
@@ -267,6 +273,9 @@ func replayOne(w *World, line string) {
 			w.Code(parseAddr(t[1]), parseScript(t[2]))
 		case "amt":
 			w.Amt(unhexStr(t[1]))
+		case "after":
+			h, _ := strconv.ParseUint(t[1], 10, 64)
+			w.After(h, []byte{0xca, 0x57})
 		case "refund":
 			var l [][2]interface{}
 			for i := 2; i+1 < len(t); i += 2 {
@@ -276,6 +285,8 @@ func replayOne(w *World, line string) {
 			w.Refund(l)
 		case "tx":
 			switch t[1] {
+			case "node":
+				w.QueueNode(parseAddr(t[2]))
 			case "lock":
 				n, _ := strconv.ParseUint(t[3], 10, 64)
 				g := &Gen{r: hx.NewRng(uint64(len(line)) + n), w: w}
@@ -340,6 +351,7 @@ func runSearch(g *Gen, n int, stats map[string]interface{}) {
 	evals := 0
 	var history []string
 	evals += searchCorpus(w, found)
+	evals += searchUnstake(w, found)
 	for evals < n {
 		w.univ = universe()
 		w.Reset(true)
@@ -351,25 +363,23 @@ func runSearch(g *Gen, n int, stats map[string]interface{}) {
 		setupLines := snapshotLines(w)
 		nb := 10 + g.r.Intn(10)
 		for b := 0; b < nb && evals < n; b++ {
-			k := g.r.Pick(1, 1, 2)
+			k := g.r.Pick(1, 2, 2, 3)
 			for i := 0; i < k; i++ {
-				if withContracts && g.r.Chance(3, 5) {
+				switch {
+				case g.r.Chance(1, 8):
+					g.lockTx()
+				case g.r.Chance(1, 12):
+					g.nodeTx()
+				case withContracts && g.r.Chance(3, 5):
 					g.contractTx(i == 0)
-				} else {
+				default:
 					g.operatorTx()
 				}
 			}
 			qs := append([]*QTx{}, w.queue...)
-			mayBurn, neg, anyCt := false, false, false
 			for _, q := range qs {
 				if q.isCt {
-					anyCt = true
-					if ctMayBurn(w, q) {
-						mayBurn = true
-					}
-				}
-				if q.feat["negvalue"] {
-					neg = true
+					q.mayBurn = ctMayBurn(w, q)
 				}
 			}
 			res := w.Exec()
@@ -392,24 +402,7 @@ func runSearch(g *Gen, n int, stats map[string]interface{}) {
 				continue
 			}
 			d := new(big.Int).Sub(res.After, res.Before)
-			key := ""
-			switch {
-			case d.Sign() > 0:
-				switch {
-				case neg:
-					key = "mint-negative-transferValue"
-				case anyCt:
-					key = "mint-contract-tx"
-				default:
-					key = "mint-operator-tx"
-				}
-			case d.Sign() < 0 && !mayBurn:
-				if neg {
-					key = "mint-negative-transferValue" // a negative transfer can also destroy value (|a+v|)
-				} else {
-					key = "burn-unexplained"
-				}
-			}
+			key := classify(qs, res)
 			if key != "" && !found[key] {
 				found[key] = true
 				f := Found{Key: key, Desc: fmt.Sprintf("sum of all balances changed by %s wei over one block (%s): %s", d.String(), res.Statuses, strings.Join(lines, " | ")),
@@ -420,6 +413,71 @@ func runSearch(g *Gen, n int, stats map[string]interface{}) {
 		}
 	}
 	stats["search_evaluations"] = evals
+}
+
+// classify is the property oracle for one executed block: "" = fine, otherwise a violation class key.
+// The sum of all balances must not grow; it may shrink by exactly the stake locked by successful lock
+// transactions, and (only when a SELFDESTRUCT is reachable) by self-destruct burns.
+func classify(qs []*QTx, res BlockResult) string {
+	d := new(big.Int).Sub(res.After, res.Before)
+	mayBurn, neg, anyCt := false, false, false
+	locked := new(big.Int)
+	nodeFees := new(big.Int)
+	for i, q := range qs {
+		ok := i < len(res.Statuses) && res.Statuses[i] == 's'
+		if q.isCt {
+			anyCt = true
+			if q.mayBurn {
+				mayBurn = true
+			}
+		}
+		if q.feat["negvalue"] {
+			neg = true
+		}
+		if q.feat["lock"] && ok && q.locked != nil {
+			locked.Add(locked, q.locked)
+		}
+		if q.feat["node"] && ok {
+			nodeFees.Add(nodeFees, rpg(10))
+		}
+	}
+	switch {
+	case d.Sign() > 0:
+		switch {
+		case neg:
+			return "mint-negative-transferValue"
+		case anyCt:
+			return "mint-contract-tx"
+		default:
+			return "mint-operator-tx"
+		}
+	case d.Sign() < 0:
+		drop := new(big.Int).Neg(d)
+		if drop.Cmp(locked) == 0 {
+			return ""
+		}
+		if mayBurn {
+			if drop.Cmp(locked) < 0 {
+				return "mint-contract-tx" // less left the ledger than was locked: something was created
+			}
+			return ""
+		}
+		if neg {
+			return "mint-negative-transferValue" // a negative transfer can also destroy value (|a+v|)
+		}
+		if nodeFees.Sign() > 0 && drop.Cmp(new(big.Int).Add(locked, nodeFees)) == 0 {
+			return "burn-operator-node-fee"
+		}
+		if drop.Cmp(locked) < 0 {
+			return "mint-lock-tx"
+		}
+		return "burn-unexplained"
+	default:
+		if locked.Sign() > 0 {
+			return "mint-lock-tx" // stake was recorded as locked but the sum did not drop
+		}
+	}
+	return ""
 }
 
 // searchCorpus replays every corpus file, checking the sum after every block.
@@ -448,14 +506,10 @@ func searchCorpus(w *World, found map[string]bool) int {
 				replayOne(w, line)
 				continue
 			}
-			mayBurn := false
-			neg := false
-			for _, q := range w.queue {
-				if q.isCt && ctMayBurn(w, q) {
-					mayBurn = true
-				}
-				if q.feat["negvalue"] {
-					neg = true
+			qs := append([]*QTx{}, w.queue...)
+			for _, q := range qs {
+				if q.isCt {
+					q.mayBurn = ctMayBurn(w, q)
 				}
 			}
 			res := w.Exec()
@@ -465,17 +519,7 @@ func searchCorpus(w *World, found map[string]bool) int {
 				continue
 			}
 			d := new(big.Int).Sub(res.After, res.Before)
-			key := ""
-			if d.Sign() > 0 {
-				key = "mint-contract-tx"
-				if neg {
-					key = "mint-negative-transferValue"
-				} else if len(block) > 0 && strings.HasPrefix(block[0], "tx op") && len(block) == 1 {
-					key = "mint-operator-tx"
-				}
-			} else if d.Sign() < 0 && !mayBurn {
-				key = "burn-unexplained"
-			}
+			key := classify(qs, res)
 			if key != "" && !found[key] {
 				found[key] = true
 				f := Found{Key: key, Desc: fmt.Sprintf("corpus %s: sum of all balances changed by %s wei over one block (%s): %s",
